@@ -249,8 +249,12 @@ func (p *PeerPool) Allocate(ctx context.Context, subscriberID string, mac net.Ha
 // Falls back through the rendezvous hash ranking, skipping unhealthy peers.
 // If all remote peers are unhealthy, falls back to local allocation.
 func (p *PeerPool) getHealthyOwner(subscriberID string) string {
+	// Copy the list under the lock: AddPeer sorts and RemovePeer shifts the
+	// backing array in place, so a slice header taken here would be ranked
+	// while its elements move (a peer twice, another one missing).
 	p.mu.RLock()
-	nodes := p.peerNodes
+	nodes := make([]string, len(p.peerNodes))
+	copy(nodes, p.peerNodes)
 	p.mu.RUnlock()
 
 	ranked := rendezvousRanked(subscriberID, nodes)
@@ -469,6 +473,10 @@ func (p *PeerPool) Get(subscriberID string) (*AllocationResponse, bool) {
 
 // Stats returns pool statistics.
 func (p *PeerPool) Stats() PoolStats {
+	p.mu.RLock()
+	peerCount := len(p.peerNodes)
+	p.mu.RUnlock()
+
 	p.localPool.mu.Lock()
 	defer p.localPool.mu.Unlock()
 
@@ -477,7 +485,7 @@ func (p *PeerPool) Stats() PoolStats {
 		Allocated: len(p.localPool.allocations),
 		Available: len(p.localPool.available),
 		Total:     len(p.localPool.allocations) + len(p.localPool.available),
-		PeerCount: len(p.peerNodes),
+		PeerCount: peerCount,
 	}
 }
 
